@@ -153,7 +153,7 @@ def run_case(rep, scn, case, sb, tag, rows):
     if case.get("uncompressed_then_compressed"):
         for r in scn.repos:
             for c in r["version"]["codenames"].values():
-                c["compressions"] = ["bz2", ""]
+                c["compressions"] = rng.choice([["bz2", ""], [""]])
     files1 = R.files_of(scn)
     oracles = [V.VisOracle(r, base) for r in scn.repos]
     if not case["first_run"]:
